@@ -161,7 +161,7 @@ func TestC17Cli(t *testing.T) {
 		}
 		// the daemon's own start-up path
 		if !allExist {
-			so, se, err := run(20*time.Second)
+			so, se, err := run(20 * time.Second)
 			all := so + se
 			named := false
 			for _, e := range sc.Entries {
